@@ -13,6 +13,9 @@
 (*   Cfg(x, mode, temps, filters, limit, mono)  new execution              *)
 (*   AddReader(t)               a reader of temporality t is registered    *)
 (*                              in the middle of the history ("late")      *)
+(*   ShutdownReader(r)          reader r alone was shut down               *)
+(*                              (MetricReader::Shutdown on it; the         *)
+(*                              provider and the other readers go on)      *)
 (*   Create(h)                  h-th handle for the one instrument         *)
 (*   Add(h, attrs, v, hid)      attrs = caller's (key,value) sequence,     *)
 (*                              hid[vw] = id of FilteredOrderedAttributeMap *)
@@ -41,6 +44,11 @@
 (*    points start at SDK start.  The readers that were there before keep  *)
 (*    every clause (values, abutting intervals) across the registration.   *)
 (*                                                                         *)
+(*  - what a reader is handed AFTER IT WAS SHUT DOWN (the SDK lets it      *)
+(*    collect, with a warning): not examined at all.  Every other reader   *)
+(*    keeps every clause for all measurements - those recorded before the  *)
+(*    shutdown, whoever collected in between, as well as those after it.   *)
+(*                                                                         *)
 (* Known defects of the unchanged tree are alternative acceptance          *)
 (* conditions guarded by their name in Dev (see known_findings.d/C06.txt,  *)
 (* C08.txt); using one is reported through devUsed / "DEV" lines.          *)
@@ -59,9 +67,9 @@ D3 == "multi-view-last-wins"
 D4 == "explicit-limit-lost-after-first-interval"
 D6 == "merge-overwrites-overflow-at-default-limit"
 
-VARIABLES l, cfg, nh, ncol, cum, ctot, pend, ptot, lastPt, cols, tw, hids, late, devUsed, nexec
+VARIABLES l, cfg, nh, ncol, cum, ctot, pend, ptot, lastPt, cols, tw, hids, late, down, devUsed, nexec
 
-vars == <<l, cfg, nh, ncol, cum, ctot, pend, ptot, lastPt, cols, tw, hids, late, devUsed, nexec>>
+vars == <<l, cfg, nh, ncol, cum, ctot, pend, ptot, lastPt, cols, tw, hids, late, down, devUsed, nexec>>
 
 Ev == TraceLog[l]
 Is(e) == l <= Len(TraceLog) /\ Ev.e = e /\ l' = l + 1
@@ -82,7 +90,7 @@ Init == /\ TLCSet(1, 0)
         /\ l = 1 /\ nexec = 0 /\ devUsed = {}
         /\ cfg = [x |-> 0, mode |-> "none", temps |-> <<>>, filters |-> <<>>, limit |-> 0, mono |-> TRUE]
         /\ nh = 0 /\ ncol = 0 /\ cum = <<>> /\ ctot = <<>> /\ pend = <<>> /\ ptot = <<>>
-        /\ lastPt = <<>> /\ cols = <<>> /\ tw = <<>> /\ hids = Empty /\ late = {}
+        /\ lastPt = <<>> /\ cols = <<>> /\ tw = <<>> /\ hids = Empty /\ late = {} /\ down = {}
 
 TCfg == /\ Is("Cfg")
         /\ Ev.mode \in {"api", "storage"}
@@ -96,7 +104,7 @@ TCfg == /\ Is("Cfg")
            /\ ptot' = [r \in 1..nr |-> [vw \in 1..nv |-> 0]]
            /\ lastPt' = [r \in 1..nr |-> [vw \in 1..nv |-> 0]]
            /\ cols' = [r \in 1..nr |-> {0}]
-        /\ nh' = 0 /\ ncol' = 0 /\ tw' = <<>> /\ hids' = Empty /\ late' = {}
+        /\ nh' = 0 /\ ncol' = 0 /\ tw' = <<>> /\ hids' = Empty /\ late' = {} /\ down' = {}
         /\ nexec' = nexec + 1
         /\ UNCHANGED devUsed
 
@@ -104,7 +112,7 @@ TCreate == /\ Is("Create")
            /\ Ev.h = nh + 1
            /\ nh' = nh + 1
            /\ tw' = IF Twin THEN Append(tw, EmptyTwin(Len(cfg.temps), NV)) ELSE tw
-           /\ UNCHANGED <<cfg, ncol, cum, ctot, pend, ptot, lastPt, cols, hids, late, devUsed, nexec>>
+           /\ UNCHANGED <<cfg, ncol, cum, ctot, pend, ptot, lastPt, cols, hids, late, down, devUsed, nexec>>
 
 \* a reader registered after the history has begun: a fresh window, remembered as late
 TAddReader == /\ Is("AddReader")
@@ -117,7 +125,14 @@ TAddReader == /\ Is("AddReader")
               /\ late' = late \cup {Len(cfg.temps) + 1}
               /\ tw' = [h \in 1..Len(tw) |-> [tw[h] EXCEPT !.pend = Append(@, [vw \in Views |-> Empty]),
                                                             !.ptot = Append(@, [vw \in Views |-> 0])]]
-              /\ UNCHANGED <<nh, ncol, cum, ctot, hids, devUsed, nexec>>
+              /\ UNCHANGED <<nh, ncol, cum, ctot, hids, down, devUsed, nexec>>
+
+\* one reader is shut down on its own: from now on nothing is said about what IT is handed; nothing else
+\* changes - in particular every other reader's window keeps what was recorded since ITS last collection
+TShutdownReader == /\ Is("ShutdownReader")
+                   /\ Ev.r \in Readers /\ Ev.r \notin down
+                   /\ down' = down \cup {Ev.r}
+                   /\ UNCHANGED <<cfg, nh, ncol, cum, ctot, pend, ptot, lastPt, cols, tw, hids, late, devUsed, nexec>>
 
 (* ---- Add: every view stream of the instrument, every reader's window ---- *)
 TAdd == /\ Is("Add")
@@ -142,7 +157,7 @@ TAdd == /\ Is("Add")
            /\ \A vw, vx \in Views : A[vw] = A[vx] => Ev.hid[vw] = Ev.hid[vx]
            /\ hids' = LET new == {A[vw] : vw \in Views} \ DOMAIN hids IN
                       hids @@ [a \in new |-> Ev.hid[CHOOSE vw \in Views : A[vw] = a]]
-        /\ UNCHANGED <<cfg, nh, ncol, lastPt, cols, late, devUsed, nexec>>
+        /\ UNCHANGED <<cfg, nh, ncol, lastPt, cols, late, down, devUsed, nexec>>
 
 (* ---- the relation between the points of one MetricData and a window ---- *)
 ASet(a) == {<<a[i][1], a[i][2]>> : i \in 1..Len(a)}
@@ -184,7 +199,7 @@ StreamOf(S, vw) == LET I == {i \in 1..Len(S) : S[i].vw = vw} IN
 
 \* the sets of deviations under which the points of stream vw are acceptable for reader r
 ValueWays(r, vw, P) ==
-  IF r \in late THEN {{}} ELSE
+  IF r \in late \/ r \in down THEN {{}} ELSE
   LET delta == cfg.temps[r] = "delta"
       R  == IF delta THEN pend[r][vw] ELSE cum[vw]
       T  == IF delta THEN ptot[r][vw] ELSE ctot[vw]
@@ -204,7 +219,7 @@ Best(W) == IF {} \in W THEN {} ELSE CHOOSE D \in W : \A E \in W : Cardinality(D)
 
 \* the sets of deviations under which the interval of a delivered (non-empty) stream is acceptable
 TimeWays(r, vw, s, k, vdev) ==
-  IF s.pts = <<>> \/ ~CheckTime THEN {{}}
+  IF s.pts = <<>> \/ ~CheckTime \/ r \in down THEN {{}}
   ELSE IF s.end # k \/ s.t # cfg.temps[r] THEN {}
   ELSE IF cfg.temps[r] = "cum" THEN (IF s.start = 0 THEN {{}} ELSE {})
   ELSE IF r \in late /\ lastPt[r][vw] = 0 THEN {{}}        \* first interval of a late reader: open
@@ -239,9 +254,9 @@ TCollect ==
                 THEN [tw EXCEPT ![nh].pend[r] = [vw \in Views |-> Empty], ![nh].ptot[r] = [vw \in Views |-> 0]]
                 ELSE tw
      /\ ncol' = k
-  /\ UNCHANGED <<cfg, nh, cum, ctot, hids, late, nexec>>
+  /\ UNCHANGED <<cfg, nh, cum, ctot, hids, late, down, nexec>>
 
-Next == TCfg \/ TCreate \/ TAddReader \/ TAdd \/ TCollect
+Next == TCfg \/ TCreate \/ TAddReader \/ TShutdownReader \/ TAdd \/ TCollect
 
 Spec == Init /\ [][Next]_vars
 
